@@ -8,9 +8,13 @@ CACHE = os.path.join(ROOT, '.cache')
 LEAN = os.path.join(ROOT, 'lean')
 REPO = os.environ.get('VERIF_REPO', '/repo')      # the registered checks always use /repo; tools/seedeval_snap.py points a snapshot at a scratch copy
 DRIVER = os.path.join(LEAN, '.lake', 'build', 'bin', 'fpdriver')
-BIN = os.path.join(CACHE, 'target', 'release', 'fastpasta')
-HARNESS = os.path.join(CACHE, 'target-harness', 'release', 'fp_harness')
-HOOKBIN = os.path.join(CACHE, 'target-hook', 'release', 'fastpasta')
+# build output is kept per repository path: cargo does not re-link target/release/fastpasta when it switches between two source
+# trees that are both up to date, so a scratch copy (VERIF_REPO, seeded-change experiments) must never share a target directory
+# with /repo
+_TSFX = '' if os.environ.get('VERIF_REPO', '/repo') == '/repo' else '-' + hashlib.md5(os.environ['VERIF_REPO'].encode()).hexdigest()[:8]
+BIN = os.path.join(CACHE, 'target' + _TSFX, 'release', 'fastpasta')
+HARNESS = os.path.join(CACHE, 'target-harness' + _TSFX, 'release', 'fp_harness')
+HOOKBIN = os.path.join(CACHE, 'target-hook' + _TSFX, 'release', 'fastpasta')
 REPLAYS = os.path.join(ROOT, 'replays')
 EVIDENCE = os.path.join(ROOT, 'evidence')
 if os.environ.get('VERIF_SKIP_PROOF') == '1':      # seeded-change evaluation: keep real evidence/replays untouched
@@ -102,10 +106,10 @@ def build_impl():
     """rebuild the release binary and the in-process harness from /repo's working tree"""
     with Lock('cargo'):
         e = env_offline()
-        e['CARGO_TARGET_DIR'] = os.path.join(CACHE, 'target')
+        e['CARGO_TARGET_DIR'] = os.path.join(CACHE, 'target' + _TSFX)
         rc1, out1 = sh(['cargo', 'build', '--release', '--offline', '-p', 'fastpasta'], cwd=REPO, env=e, timeout=3600)
         e2 = env_offline()
-        e2['CARGO_TARGET_DIR'] = os.path.join(CACHE, 'target-harness')
+        e2['CARGO_TARGET_DIR'] = os.path.join(CACHE, 'target-harness' + _TSFX)
         # keep the harness lock file in step with the repository's
         try:
             shutil.copyfile(os.path.join(REPO, 'Cargo.lock'), os.path.join(ROOT, 'harness', 'Cargo.lock'))
@@ -119,7 +123,7 @@ def build_hook():
     """release binary of /repo with the verification hooks compiled in (schedule perturbation, traces)"""
     with Lock('cargo-hook'):
         e = env_offline()
-        e['CARGO_TARGET_DIR'] = os.path.join(CACHE, 'target-hook')
+        e['CARGO_TARGET_DIR'] = os.path.join(CACHE, 'target-hook' + _TSFX)
         e['RUSTFLAGS'] = '--cfg crambl_fastpasta_verif'
         rc, out = sh(['cargo', 'build', '--release', '--offline', '-p', 'fastpasta'], cwd=REPO, env=e, timeout=3600)
         return rc == 0, out
